@@ -102,8 +102,10 @@ def choose(rng, pdu, family):
         f.update(node=i, how=rng.choice(["+1", "-1", "0", "huge", "long1", "long4", "leading0", "indef", "ff", "lol127"]))
     elif kind in ("tag_edit", "tag_edit_reframed"):
         i = rng.choice(inner) if kind.endswith("reframed") else rng.randrange(len(order))
-        f.update(node=i, how=rng.choice(["class", "number", "constructed", "hightag", "hightag_trunc", "zero"]),
-                 val=rng.randrange(256))
+        # tag numbers next to the ones the protocol uses matter most (choice n+1 of an n-way CHOICE etc.)
+        f.update(node=i, how=rng.choice(["class", "number", "number", "neighbour", "neighbour", "constructed", "hightag", "hightag_trunc", "zero"]),
+                 delta=rng.choice([-2, -1, 1, 1, 2, 3]),
+                 val=rng.choice(list(range(0, 13)) * 3 + [19, 23, 24, 25, 30]) if rng.random() < 0.75 else rng.randrange(256))
     elif kind == "content_edit":
         if not prims:
             return None
@@ -216,6 +218,12 @@ def apply(pdu, f):
             nb = bytes([(b0 & 0x3F) | ((val & 3) << 6)])
         elif how == "number":
             nb = bytes([(b0 & 0xE0) | (val & 0x1F if (val & 0x1F) != 0x1F else 0x1E)])
+        elif how == "neighbour":
+            # the tag number next to the one in use (choice n+1 of an n-way CHOICE, the following context tag ...)
+            nn = (b0 & 0x1F) + int(f.get("delta", 1))
+            if (b0 & 0x1F) == 0x1F or not 0 <= nn < 31:
+                return None
+            nb = bytes([(b0 & 0xE0) | nn])
         elif how == "constructed":
             nb = bytes([b0 ^ 0x20])
         elif how == "hightag":
